@@ -32,6 +32,10 @@ type Job struct {
 	// whose unbounded order space is too large (Joint-Feldman with >= 3 honest participants).
 	BoundedOrder bool
 	Reorder      int
+	// PlusComplaint: additionally every script of exactly D deviations extended by ONE well-formed
+	// complaint of the Byzantine participant against an honest dealer (round 1 or 2): "a bad dealer
+	// that also accuses somebody" needs one deviation more than the bad dealing itself.
+	PlusComplaint bool
 }
 
 type replayFile struct {
@@ -115,6 +119,30 @@ func Run(run *ev.Run, prop string, jobs []Job) {
 		j := &jobs[i]
 		g := dkgsys.Grammar(&j.Cfg)
 		scs := dkgsys.Scripts(g, j.D)
+		if j.PlusComplaint {
+			var extra []dkgsys.Deviation
+			for _, d := range g {
+				if strings.HasPrefix(d.Slot, "inj:") && strings.Contains(d.Slot, ":cmp:") && d.Var == "ok" && !strings.HasPrefix(d.Slot, "inj:3:") {
+					extra = append(extra, d)
+				}
+			}
+			var more []dkgsys.Script
+			for _, sc := range scs {
+				if len(sc) != j.D {
+					continue
+				}
+			next:
+				for _, e := range extra {
+					for _, d := range sc {
+						if d.Z == e.Z && d.Slot == e.Slot {
+							continue next
+						}
+					}
+					more = append(more, append(append(dkgsys.Script{}, sc...), e))
+				}
+			}
+			scs = append(scs, more...)
+		}
 		for _, sc := range scs {
 			units = append(units, unit{j, sc})
 		}
@@ -122,7 +150,7 @@ func Run(run *ev.Run, prop string, jobs []Job) {
 		if j.BoundedOrder {
 			order = fmt.Sprintf("<= %d deviations from the default delivery schedule", j.Reorder)
 		}
-		jobInfo = append(jobInfo, map[string]any{"config": j.Cfg.String(), "deviation_bound": j.D, "single_deviations": len(g), "scripts": len(scs), "delivery_order": order})
+		jobInfo = append(jobInfo, map[string]any{"config": j.Cfg.String(), "deviation_bound": j.D, "single_deviations": len(g), "scripts": len(scs), "delivery_order": order, "plus_one_complaint_against_an_honest_dealer": j.PlusComplaint})
 	}
 	run.Set("jobs", jobInfo)
 	var statsMu sync.Mutex
